@@ -75,6 +75,9 @@ func (o Op) String() string {
 type Program struct {
 	Mode Mode
 	Ops  []Op
+	// KeepGoing: continue the program after a failed lock call (C06 explores arbitrary call
+	// sequences "some of which failed"); default: a failed locking call aborts the transaction.
+	KeepGoing bool
 }
 
 func (p Program) String() string {
@@ -124,6 +127,7 @@ type TxnRec struct {
 	StartTS       uint64
 	Reads         []ReadRec
 	Locks         []LockRecH
+	OptLocked     []string // keys an optimistic transaction asked to lock (LockKeys): prewritten as Op_Lock unless written
 	Writes        map[string]OwnW // final buffer content
 	Inserted      map[string]bool // keys that were ever declared insert in this txn
 	OpErrs        []string
@@ -140,9 +144,15 @@ type TxnRec struct {
 type History struct {
 	Txns []*TxnRec
 	seq  atomic.Int64
+	W    *World // when set, the world's event sequence is used (one order for API events, RPCs and timestamps)
 }
 
-func (h *History) next() int { return int(h.seq.Add(1)) }
+func (h *History) next() int {
+	if h.W != nil {
+		return int(h.W.Seq.Add(1))
+	}
+	return int(h.seq.Add(1))
+}
 
 // ValueOf builds the unique value written by (client, txn, op).
 func ValueOf(client, txn, op int) string { return fmt.Sprintf("v%d.%d.%d", client, txn, op) }
@@ -346,6 +356,13 @@ func (c *Client) runTxn(h *History, idx int, p Program, rec *TxnRec) bool {
 				err = txn.LockKeys(ctx, lctx, ks...)
 				if err != nil && tikverr.IsErrWriteConflict(err) && p.Mode.Pessimistic {
 					rec.OpErrs = append(rec.OpErrs, "lock:write-conflict-retry")
+					// a failed lock call drops the presume-not-exists mark of its keys; the retried
+					// statement declares its inserts again (as TiDB re-executes the statement)
+					for _, k := range keys {
+						if o, ok := own[k]; ok && o.Insert {
+							txn.GetMemBuffer().UpdateFlags([]byte(k), kv.SetPresumeKeyNotExists)
+						}
+					}
 					continue
 				}
 				if err != nil {
@@ -357,6 +374,10 @@ func (c *Client) runTxn(h *History, idx int, p Program, rec *TxnRec) bool {
 				if p.Mode.Pessimistic {
 					for _, k := range keys {
 						rec.Locks = append(rec.Locks, LockRecH{Seq: seq, Key: k, ForUpd: lctx.ForUpdateTS})
+					}
+				} else {
+					for _, k := range keys {
+						rec.OptLocked = append(rec.OptLocked, k)
 					}
 				}
 				if op.Kind == "lockrv" && p.Mode.Pessimistic {
@@ -376,7 +397,7 @@ func (c *Client) runTxn(h *History, idx int, p Program, rec *TxnRec) bool {
 				}
 				break
 			}
-			if lockFailed && p.Mode.Pessimistic {
+			if lockFailed && p.Mode.Pessimistic && !p.KeepGoing {
 				// a failed locking statement aborts the transaction (a well-formed caller does not
 				// commit writes whose lock it failed to get)
 				_ = txn.Rollback()
@@ -384,7 +405,26 @@ func (c *Client) runTxn(h *History, idx int, p Program, rec *TxnRec) bool {
 				rec.Outcome = "rolledback"
 				return true
 			}
+		case "aggr-start":
+			if p.Mode.Pessimistic && !txn.IsInAggressiveLockingMode() {
+				txn.StartAggressiveLocking()
+			}
+		case "aggr-retry":
+			if txn.IsInAggressiveLockingMode() {
+				txn.RetryAggressiveLocking(ctx)
+			}
+		case "aggr-cancel":
+			if txn.IsInAggressiveLockingMode() {
+				txn.CancelAggressiveLocking(ctx)
+			}
+		case "aggr-done":
+			if txn.IsInAggressiveLockingMode() {
+				txn.DoneAggressiveLocking(ctx)
+			}
 		case "commit":
+			if txn.IsInAggressiveLockingMode() {
+				txn.DoneAggressiveLocking(ctx) // well-formed callers end the aggressive-locking stage first
+			}
 			if d := sched.Point(c.ID, sched.KAPI, "commit", nil); d.Kind == sched.Abort {
 				return false
 			}
@@ -407,6 +447,9 @@ func (c *Client) runTxn(h *History, idx int, p Program, rec *TxnRec) bool {
 			}
 			return true
 		case "rollback":
+			if txn.IsInAggressiveLockingMode() {
+				txn.CancelAggressiveLocking(ctx)
+			}
 			err := txn.Rollback()
 			rec.CommitRetSeq = h.next()
 			if err != nil {
@@ -420,6 +463,9 @@ func (c *Client) runTxn(h *History, idx int, p Program, rec *TxnRec) bool {
 		}
 	}
 	// program without terminal op: roll back
+	if txn.IsInAggressiveLockingMode() {
+		txn.CancelAggressiveLocking(ctx)
+	}
 	_ = txn.Rollback()
 	rec.CommitRetSeq = h.next()
 	rec.Outcome = "rolledback"
